@@ -31,19 +31,44 @@ def is_sweep(line):
     return bool(m) and m.group(1) not in _STD
 
 
+_B2 = {"overflowing_add", "overflowing_sub", "checked_add", "saturating_sub", "overflowing_neg", "overflowing_mul", "checked_mul",
+       "checked_div", "checked_rem", "checked_rem_euclid", "checked_shl", "checked_shr", "rotate_left", "rotate_right", "count_ones",
+       "count_zeros", "leading_zeros", "leading_ones", "trailing_zeros", "trailing_ones", "reverse_bits", "swap_bytes",
+       "is_power_of_two", "cmp", "eq", "widening_mul", "carrying_mul", "checked_next_power_of_two"}
+
+
 def sweep_bin(line):
+    """the sweep bin that knows the operation of `line` (None: not an operation of the sweep bins)"""
     op = line.split(" ", 1)[0]
-    return "widths" if op in _B1 else "widths3" if op in _B3 else "widths2"
+    return "widths" if op in _B1 else "widths3" if op in _B3 else "widths2" if op in _B2 else None
 
 
 def route(line, default, inner=None):
-    if is_sweep(line):
+    if is_sweep(line) and sweep_bin(line):
         return sweep_bin(line)
     return inner(line) if inner else default
 
 
-def ns(rng):
-    return range(1, 1025)
+TIER = "thorough"
+
+
+def set_tier(t):
+    global TIER
+    TIER = t
+
+
+def ns(rng, cost=0):
+    """digit counts swept.  Thorough tier: every N.  Quick tier: every N for cheap operations (cost 0); for
+    operations whose cost grows like N^2 (cost 1: parsing, printing) every N up to 320 and every 3rd beyond, for the
+    N^3 ones (cost 2: logarithms, powers, roots) every N up to 128 and every 8th beyond - the residue class is drawn
+    from the run's seed."""
+    if TIER != "quick" or cost == 0:
+        return range(1, 1025)
+    if cost == 1:
+        r = rng.randrange(3)
+        return [n for n in range(1, 1025) if n <= 320 or n % 3 == r]
+    r = rng.randrange(8)
+    return [n for n in range(1, 1025) if n <= 128 or n % 8 == r]
 
 
 def always_driver(line):
@@ -115,7 +140,7 @@ def _ilog(x, b):
 # ---------------------------------------------------------------- sweeps (name -> generator)
 def parse_print(rng):
     """decimal parsing at the limits of every width (FromStr and from_str_radix), unsigned and signed"""
-    for n in ns(rng):
+    for n in ns(rng, 1):
         W = 8 * n
         M = 1 << W
         digs = len(str(M - 1))
@@ -134,7 +159,7 @@ def parse_print(rng):
 
 
 def from_radix(rng):
-    for n in ns(rng):
+    for n in ns(rng, 1):
         W = 8 * n
         M = 1 << W
         for r in (256, rng.choice([2, 10, 16, 100, 255, 128])):
@@ -148,7 +173,7 @@ def from_radix(rng):
 
 
 def print_(rng):
-    for n in ns(rng):
+    for n in ns(rng, 1):
         W = 8 * n
         M = 1 << W
         for z in (M - 1, rng.randrange(M)):
@@ -165,7 +190,7 @@ def print_(rng):
 
 
 def ilog(rng):
-    for n in ns(rng):
+    for n in ns(rng, 2):
         W = 8 * n
         M = 1 << W
         p10 = 10 ** (len(str(M - 1)) - 1)
@@ -183,7 +208,7 @@ def ilog(rng):
 
 
 def pow_(rng):
-    for n in ns(rng):
+    for n in ns(rng, 2):
         W = 8 * n
         M = 1 << W
         b = rng.choice([2, 3, 10, 255, 257])
@@ -413,7 +438,7 @@ def _iroot(x, k):
 
 
 def roots(rng):
-    for n in ns(rng):
+    for n in ns(rng, 2):
         W = 8 * n
         M = 1 << W
         for x in (M - 1, rng.randrange(M)):
